@@ -1481,7 +1481,7 @@ func (s *Session) checkRelatedMulti(o *Obs) error {
 			if !s.scopeLive(o, sc) {
 				continue
 			}
-			var exp []string
+			exp := []string{}
 			for _, e := range s.H.Ent {
 				for _, x := range pairSet(tab[relKey{e, "*", inv, scopeKey(sc), o.Clock}]) {
 					exp = append(exp, e+":"+x)
